@@ -9,7 +9,7 @@ import (
 	"time"
 )
 
-// The regression corpus: the witness histories W1..W13 of DESIGN.md section 6.5
+// The regression corpus: the witness histories W1..W18 of DESIGN.md section 6.5
 // (ops fully resolved) and every minimized failure ever found.
 //
 // On the repaired tree W1..W7 and W12 raise no monitor; W8, W9, W10, W13
@@ -349,6 +349,39 @@ func corpus() []*History {
 		Op{Kind: "refunddep", Svc: 1, Prov: 126, Owner: 101},
 		opEB(300*ms),
 		Op{Kind: "refunddep", Svc: 1, Prov: 126, Owner: 101})
+
+	// W18 (seed C06-4): governance parameter changes inside a history. A provider binds with QoS 150 while
+	// the maximum request timeout is 200; the maximum is lowered to 100 (the binding is grandfathered); a
+	// call with timeout 100 = the CURRENT maximum names that provider: QoS 150 > timeout 100, so it is not
+	// eligible and the batch is skipped without a request or a charge. A second provider bound with QoS 100
+	// under the new maximum IS eligible under the same terms. Illegal proposals are refused without a trace;
+	// QoS 101 can no longer be bound; the final query step reads the parameters in force.
+	{
+		pset := func(f func(c *Cfg)) Op {
+			c := cfgs[0]
+			f(&c)
+			return Op{Kind: "setparams", P: &c}
+		}
+		add("W18-param-change-qos-above-timeout", 0, append(rich(101), [2]int64{111, 1000}),
+			pset(func(c *Cfg) { c.MaxTimeout = 200 }),
+			opDefine(1, 101),
+			opBind(1, 126, 101, base(6000), price("2"), 150),
+			pset(func(c *Cfg) { c.MaxTimeout = 100; c.Tax = "1" }),   // refused: tax = 1
+			pset(func(c *Cfg) { c.MaxTimeout = 0 }),                  // refused: timeout 0
+			pset(func(c *Cfg) { c.MaxTimeout = 100; c.Slash = "1.000000000000000001" }), // refused: slash > 1
+			pset(func(c *Cfg) { c.MaxTimeout = 100; c.Multiple = 0 }), // refused: multiple 0
+			pset(func(c *Cfg) { c.MaxTimeout = 100; c.Tax = "0.25"; c.Compl = 3 * time.Second }),
+			opCall(1801, 1, []int64{126}, 111, 10, 100, false, 0, 0),  // timeout = current maximum
+			opCall(1802, 1, []int64{126}, 111, 10, 101, false, 0, 0),  // refused: above the current maximum
+			opBind(1, 127, 101, base(6000), price("2"), 101),          // refused: QoS above the current maximum
+			opBind(1, 127, 101, base(6000), price("2"), 100),
+			opCall(1803, 1, []int64{126, 127}, 111, 10, 100, false, 0, 0),
+			opEB(5*sec), // 1801: skipped (no eligible provider); 1803: one request, to 127 only
+			opRespond(1803, 1, 10, 0, 127, 200, 1, true), // fee 2, tax 25 % = floor(0.5) = 0
+			pset(func(c *Cfg) { c.MaxTimeout = 100; c.Tax = "0.25"; c.Compl = 3 * time.Second; c.Multiple = 100; c.MinDeposit = 10 }),
+			Op{Kind: "query"},
+			opEB(5*sec))
+	}
 
 	hs = append(hs, corpusC17()...)
 	hs = append(hs, corpusFiles("corpus")...)
